@@ -7,6 +7,7 @@
   run fails.  Sources are arbitrary in number, may be empty, and are strictly ascending.
 -/
 import Grenad.Proofs.MergeProofs
+import Grenad.Proofs.Wave3Sorter
 
 namespace Grenad.Props.C06
 
@@ -214,3 +215,213 @@ open Grenad.Props.C06
 #print axioms C06_calls_err
 #print axioms group_values
 end Axioms
+
+/-!
+  ## Assembly (wave 3): the merger between files; the heap's shape
+
+  `Wave3.Admissible`, `Wave3.SizesOk`, `Wave3.RoundTrips`, `Wave3.yielded`: see
+  Grenad/Proofs/Wave3Sorter.lean (`RoundTrips cd cfg es` is the conclusion of `C01_roundtrip`).
+  `scanForward`, `reader`: the byte-level reader of Grenad/Props/C01.lean.
+-/
+namespace Grenad.Props.C06
+
+open Grenad Grenad.Merger Grenad.Wave3 Grenad.Assembly Grenad.Props.C01
+
+/-! ### C06_into_writer -/
+
+/-- The merged output is strictly ascending (whatever the sources). -/
+theorem mergeSpec_asc (mf' : Bytes → List Bytes → Bytes) (sources : List (List Entry)) :
+    StrictAsc (Spec.mergeSpec mf' sources) := by
+  rw [mergeSpec_eq_G]; exact G_asc mf' _
+
+/-- Sizes of the merged output: keys are source keys, values are outputs of the merge function
+    on the groups, and there are at most as many pairs as in all sources together. -/
+theorem mergeSpec_sizes (mf' : Bytes → List Bytes → Bytes) (sources : List (List Entry))
+    (hk : ∀ s ∈ sources, ∀ e ∈ s, e.1.length < 2 ^ 32)
+    (hv : ∀ g ∈ Spec.group sources.flatten, (mf' g.1 g.2).length < 2 ^ 32)
+    (hn : totalLen sources < 2 ^ 64) : SizesOk (Spec.mergeSpec mf' sources) := by
+  refine sizes_of_keys (kvs := sources.flatten) (mergeSpec_asc mf' sources) ?_ ?_ ?_ ?_
+  · intro k hk'
+    rw [mergeSpec_keys, group_keys] at hk'
+    exact hk'
+  · intro e he
+    obtain ⟨s, hs, hes⟩ := List.mem_flatten.mp he
+    exact hk s hs e hes
+  · intro e he
+    simp only [Spec.mergeSpec, List.mem_map] at he
+    obtain ⟨g, hg, rfl⟩ := he
+    exact hv g hg
+  · rw [List.length_flatten]; exact hn
+
+/-- **C06_into_writer.**  Streaming the merger into a writer produces a file with exactly the
+    merged content.  Sources strictly ascending, merge function total; the writer configuration
+    is any one admitted by `C01_roundtrip` (lawful codec with id ≤ 5, any block size, at most 255
+    index levels, interval ≥ 1); source keys and MERGED values shorter than `2^32` bytes, fewer
+    than `2^64` pairs in all.  Then the merger returns `out = Spec.mergeSpec mf' sources`, `out`
+    is strictly ascending, `W.run cd wcfg out` succeeds, and — under the two output-size side
+    conditions of `C01_roundtrip` — the file opens with `count = out.length` and its forward
+    scan returns exactly `out` (then `None`). -/
+theorem C06_into_writer (mf' : Bytes → List Bytes → Bytes) (sources : List (List Entry))
+    (hasc : ∀ s ∈ sources, StrictAsc s)
+    (hk : ∀ s ∈ sources, ∀ e ∈ s, e.1.length < 2 ^ 32)
+    (hv : ∀ g ∈ Spec.group sources.flatten, (mf' g.1 g.2).length < 2 ^ 32)
+    (hn : totalLen sources < 2 ^ 64)
+    (cd : Codec) (wcfg : WCfg) (hlaw : cd.Lawful) (hid : cd.id ≤ 5) (hlv : wcfg.levels ≤ 255)
+    (hiv : 1 ≤ wcfg.interval) :
+    ∃ out, (run (total mf') sources).1 = some out ∧ out = Spec.mergeSpec mf' sources ∧
+      StrictAsc out ∧
+      ∃ file log, W.run cd wcfg out = .ok (file, log) ∧
+        (file.length < 2 ^ 64 → (∀ e ∈ log, e.raw.length < 2 ^ 32) →
+          ∃ m, Meta.parse file = .ok m ∧ m.count = out.length ∧ m.codec = cd.id ∧
+            scanForward cd file (out.length + 1) (RC.new m) =
+              out.map (fun e => Res.ok (some e)) ++ [Res.ok none] ∧
+            yielded (scanForward cd file (out.length + 1) (RC.new m)) = out) := by
+  refine ⟨_, C06_merge mf' sources hasc, rfl, mergeSpec_asc mf' sources, ?_⟩
+  obtain ⟨file, log, hrun, h⟩ := roundTrips ⟨hlaw, hid, hlv, hiv⟩ (mergeSpec_asc mf' sources)
+    (mergeSpec_sizes mf' sources hk hv hn)
+  refine ⟨file, log, hrun, fun h1 h2 => ?_⟩
+  obtain ⟨m, hm, g1, g2, g3, -, g5⟩ := h h1 h2
+  exact ⟨m, hm, g1, g2, g3, g5⟩
+
+/-- The same with the packaged conclusion (backward scan included) and the size hypotheses on the
+    output itself. -/
+theorem C06_into_writer' (mf' : Bytes → List Bytes → Bytes) (sources : List (List Entry))
+    (hasc : ∀ s ∈ sources, StrictAsc s) (hs : SizesOk (Spec.mergeSpec mf' sources))
+    (cd : Codec) (wcfg : WCfg) (A : Admissible cd wcfg) :
+    (run (total mf') sources).1 = some (Spec.mergeSpec mf' sources) ∧
+      RoundTrips cd wcfg (Spec.mergeSpec mf' sources) :=
+  ⟨C06_merge mf' sources hasc, roundTrips A (mergeSpec_asc mf' sources) hs⟩
+
+/-! ### C06_sources_are_lists -/
+
+/-- A source of the merger as it exists on disk: the bytes `file` written by `W.run cd cfg es`
+    (with the block log), under all the hypotheses of C01 (`Assembly.Setting`). -/
+structure SourceFile where
+  cd : Codec
+  cfg : WCfg
+  es : List Entry
+  file : Bytes
+  log : List Emitted
+  setting : Setting cd cfg es file log
+
+/-- **C06_sources_are_lists.**  Each source file opens, and `next()` on its fresh byte-level
+    cursor yields exactly the entries it was written from, in order, then `None`
+    (`C01_roundtrip_of_run`); these lists are strictly ascending.  This is what justifies
+    modelling a merger source as the list its cursor yields: the merger over the files' cursors
+    is `Merger.run` over `fs.map (·.es)`, whose output is the grouped union. -/
+theorem C06_sources_are_lists (fs : List SourceFile) :
+    (∀ f ∈ fs, ∃ m, Meta.parse f.file = .ok m ∧ m.count = f.es.length ∧
+        scanForward f.cd f.file (f.es.length + 1) (RC.new m) =
+          f.es.map (fun e => Res.ok (some e)) ++ [Res.ok none] ∧
+        yielded (scanForward f.cd f.file (f.es.length + 1) (RC.new m)) = f.es) ∧
+    (∀ s ∈ fs.map (·.es), StrictAsc s) ∧
+    ∀ mf', (run (total mf') (fs.map (·.es))).1 = some (Spec.mergeSpec mf' (fs.map (·.es))) := by
+  have hasc : ∀ s ∈ fs.map (·.es), StrictAsc s := by
+    intro s hs
+    obtain ⟨f, -, rfl⟩ := List.mem_map.mp hs
+    exact f.setting.H.asc
+  exact ⟨fun f _ => setting_yields f.setting, hasc, fun mf' => C06_merge mf' _ hasc⟩
+
+/-- **From files to a file.**  Merging written files and streaming the result into a writer:
+    `C06_sources_are_lists` and `C06_into_writer` chained (the source keys are shorter than
+    `2^32` because the files were written). -/
+theorem C06_files_into_writer (mf' : Bytes → List Bytes → Bytes) (fs : List SourceFile)
+    (hv : ∀ g ∈ Spec.group (fs.map (·.es)).flatten, (mf' g.1 g.2).length < 2 ^ 32)
+    (hn : totalLen (fs.map (·.es)) < 2 ^ 64) (cd : Codec) (wcfg : WCfg) (A : Admissible cd wcfg) :
+    (run (total mf') (fs.map (·.es))).1 = some (Spec.mergeSpec mf' (fs.map (·.es))) ∧
+      RoundTrips cd wcfg (Spec.mergeSpec mf' (fs.map (·.es))) := by
+  obtain ⟨-, hasc, -⟩ := C06_sources_are_lists fs
+  refine C06_into_writer' mf' _ hasc (mergeSpec_sizes mf' _ ?_ hv hn) cd wcfg A
+  intro s hs e he
+  obtain ⟨f, -, rfl⟩ := List.mem_map.mp hs
+  exact (f.setting.H.lens e he).1
+
+/-! ### C06_heap_shape_irrelevant -/
+
+/-- **C06_heap_shape_irrelevant.**  The model selects the next head with `heapMin` over a list in
+    arbitrary order.  `MergerIter::next` is invariant under permutation of that list: two mergers
+    whose heaps hold the same entries (with pairwise distinct `(key, idx)` pairs) in any two
+    orders return the same result, record the same call, and their new heaps again hold the same
+    entries.  This is the formal content of "the binary heap's internal shape is unobservable". -/
+theorem C06_heap_shape_irrelevant (mf : MergeFn) (m m' : Merger)
+    (hne : m.heap.Pairwise (fun a b => (a.key, a.idx) ≠ (b.key, b.idx)))
+    (hp : m.heap.Perm m'.heap) (hc : m.calls = m'.calls) :
+    (next mf m).2 = (next mf m').2 ∧
+    (next mf m).1.heap.Perm (next mf m').1.heap ∧
+    (next mf m).1.calls = (next mf m').1.calls :=
+  next_perm mf m m' ((keyIdxNe_iff _).mpr hne) hp hc
+
+/-- The hypothesis is an invariant of every run: after any number of `next` calls from
+    `Merger.start sources` (any sources, any merge function) the heap entries have pairwise
+    distinct source indices, hence pairwise distinct `(key, idx)` pairs. -/
+theorem C06_heap_distinct (mf : MergeFn) (sources : List (List Entry)) (n : Nat) :
+    (nextN mf n (start sources)).heap.Pairwise (fun a b => a.idx ≠ b.idx) ∧
+    (nextN mf n (start sources)).heap.Pairwise (fun a b => (a.key, a.idx) ≠ (b.key, b.idx)) :=
+  ⟨(run_keyIdxNe mf sources n).1, (keyIdxNe_iff _).mp (run_keyIdxNe mf sources n).2⟩
+
+/-- Whole runs: draining a merger whose heap is ANY permutation of the initial heap gives the
+    output and the calls of `Merger.run`. -/
+theorem C06_heap_shape_irrelevant_run (mf : MergeFn) (sources : List (List Entry)) (m' : Merger)
+    (hp : (start sources).heap.Perm m'.heap) (hc : m'.calls = []) :
+    (Merger.collect mf (totalLen sources + 1) m' []).1 = (run mf sources).1 ∧
+    (Merger.collect mf (totalLen sources + 1) m' []).2.calls = (run mf sources).2.calls := by
+  have := collect_perm mf (totalLen sources + 1) (start sources) m' [] (start_idxNe sources) hp
+    (by rw [hc]; rfl)
+  exact ⟨this.1.symm, this.2.symm⟩
+
+/-! ### Concrete instances (wave 3) -/
+
+def exWCfg : WCfg := { blockSize := 0, minBlock := 28, interval := 2, levels := 2 }
+
+/-- `C06_into_writer` on `exSources` / `exConcat`: the hypotheses are satisfiable. -/
+example : ∃ out, (run (total exConcat) exSources).1 = some out ∧
+    out = [([1], [10, 11]), ([2], [20]), ([3], [30, 31]), ([4, 0], [40])] ∧ StrictAsc out ∧
+    ∃ file log, W.run Codec.none exWCfg out = .ok (file, log) := by
+  obtain ⟨out, h1, h2, h3, file, log, h4, -⟩ := C06_into_writer exConcat exSources exAsc
+    (by decide) (by decide) (by decide) Codec.none exWCfg (fun _ => rfl) (by decide) (by decide)
+    (by decide)
+  exact ⟨out, h1, by rw [h2]; decide, h3, file, log, h4⟩
+
+/-- The file of the C01 instance (twelve entries, eight blocks) as a merger source. -/
+def exSrcFile : SourceFile :=
+  ⟨Codec.none, Grenad.Props.C01.exCfg, exEs, exFile, exLog, exSetting⟩
+
+/-- `C06_sources_are_lists` / `C06_files_into_writer` on an instance: the file merged with
+    itself (every key twice, values concatenated) and streamed into a writer. -/
+example : RoundTrips Codec.none exWCfg (Spec.mergeSpec exConcat [exEs, exEs]) :=
+  (C06_files_into_writer exConcat [exSrcFile, exSrcFile] (by decide) (by decide) Codec.none exWCfg
+    ⟨fun _ => rfl, by decide, by decide, by decide⟩).2
+
+example : ∃ m, Meta.parse exFile = .ok m ∧
+    yielded (scanForward Codec.none exFile 13 (RC.new m)) = exEs := by
+  obtain ⟨m, hm, -, -, h⟩ := (C06_sources_are_lists [exSrcFile]).1 exSrcFile (by simp)
+  exact ⟨m, hm, h⟩
+
+/-- Two orders of the same heap. -/
+def exHeapA : List MSrc :=
+  [⟨0, [([1], [10]), ([3], [30])]⟩, ⟨2, [([1], [11]), ([2], [20])]⟩, ⟨3, [([3], [31])]⟩]
+def exHeapB : List MSrc :=
+  [⟨3, [([3], [31])]⟩, ⟨2, [([1], [11]), ([2], [20])]⟩, ⟨0, [([1], [10]), ([3], [30])]⟩]
+
+example : (next (total exConcat) ⟨exHeapA, []⟩).2 = (next (total exConcat) ⟨exHeapB, []⟩).2 :=
+  (C06_heap_shape_irrelevant (total exConcat) ⟨exHeapA, []⟩ ⟨exHeapB, []⟩ (by decide) (by decide)
+    rfl).1
+
+/-- The hypothesis cannot be dropped: with two heads carrying the same `(key, idx)` the popped
+    order — hence the value order handed to the merge function — depends on the list order. -/
+example : (next (total exConcat) ⟨[⟨0, [([1], [10])]⟩, ⟨0, [([1], [11])]⟩], []⟩).2 ≠
+    (next (total exConcat) ⟨[⟨0, [([1], [11])]⟩, ⟨0, [([1], [10])]⟩], []⟩).2 := by decide
+
+end Grenad.Props.C06
+
+section AxiomsWave3
+open Grenad.Props.C06
+#print axioms mergeSpec_sizes
+#print axioms C06_into_writer
+#print axioms C06_into_writer'
+#print axioms C06_sources_are_lists
+#print axioms C06_files_into_writer
+#print axioms C06_heap_shape_irrelevant
+#print axioms C06_heap_distinct
+#print axioms C06_heap_shape_irrelevant_run
+end AxiomsWave3
